@@ -407,6 +407,18 @@ class Engine:
                 return True
         return False
 
+    def handler_may_match(self, ex, st, h, r):
+        """for an abstract raise (some instance of class r.exc): the first class named by the handler that is a
+        strict subclass of r.exc, or None"""
+        if h.type is None:
+            return None
+        types = h.type.elts if isinstance(h.type, ast.Tuple) else [h.type]
+        for t in types:
+            nm = self.exc_name(ex, st, t)
+            if not self.exc_is(r.exc, nm) and self.exc_is(nm, r.exc):
+                return EXC_ALIAS.get(nm, nm)
+        return None
+
     def obj_attr(self, ex, st, base, attr):
         raise Unsupported(f"attribute {attr} of an opaque object")
 
